@@ -243,6 +243,9 @@ def run(chk):
         if r1 / n1 < 0.9:
             ex = next((v[2] for k, v in stat.items() if k[0] == 'gross' and v[2]), trials[0][5].lines)
             chk.violation('gross', 'a standard off by 100 standard deviations is rejected in only %d of %d solves' % (r1, n1), ex)
+    # 3a. rectangular calibrations
+    if not chk.violations:
+        rectangular(chk, exe, rng, 6 if quick else 30)
     # 3b. renaming the ports of noisy weighted data renames the calibration
     if not chk.violations:
         relabel(chk, exe, rng, 1 if quick else 6)
@@ -254,6 +257,44 @@ def run(chk):
     chk.samples = [[l[:120] for l in trials[0][5].lines[:5]]]
     if broken and not chk.violations:
         chk.violation('obligation', 'proof/correspondence obligations that no longer check:\n' + '\n'.join(broken[:30]), nofail=True)
+
+
+def rectangular(chk, exe, rng, reps):
+    """calibrations with more ports than detectors or than sources (T 2x3, U 3x2, 2x1), error model on with a signal-proportional part:
+    exact data are accepted; noise of exactly the declared size is not rejected wholesale (every residual is judged against the
+    variance of its own measurement cell, whatever the shape of the measurement matrix)"""
+    shapes = [('T8', 2, 3), ('TE10', 2, 3), ('U8', 3, 2), ('UE10', 3, 2), ('UE14', 3, 2), ('E12', 3, 2), ('UE14', 2, 1), ('E12', 2, 1)]
+    for typ, r, c in shapes:
+        rej = tot = 0
+        for k in range(1 + reps):
+            snf, str_ = 10 ** rng.uniform(-5, -4), 10 ** rng.uniform(-2.5, -1.5)
+            sc = NoisySc(random.Random(rng.randrange(1 << 30)), typ, r, c, 1, form='m')
+            sc.noise = None if k == 0 else (snf, str_)
+            sc.begin()
+            sc.lines.append('cal new_set_m_error %d 1 N S %s T %s' % (sc.n, vlib.d2h(snf), vlib.d2h(str_)))
+            sc.lines.append('cal new_set_pvalue_limit %d %s' % (sc.n, vlib.d2h(0.001)))
+            sc.solt().solve()
+            isolve = len(sc.lines) - 1
+            sc.lines += ['cal free 0', 'cal live']
+            out, rc, err = vlib.run_lines(exe, sc.lines, timeout=600)
+            chk.evaluations += 1
+            tag = '%s %dx%d sigma_nf %.1e sigma_tr %.1e' % (typ, r, c, snf, str_)
+            if rc != 0 or len(out) != len(sc.lines):
+                chk.violation('sanitizer-rect', '%s: crash / sanitizer report:\n%s' % (tag, err[-1200:]), sc.lines[:len(out) + 1])
+                return
+            if k == 0:
+                if not out[isolve].startswith('ok'):
+                    chk.violation('exact-rejected-rect', '%s: data that fit the error model exactly are rejected: %s' % (tag, out[isolve][:60]), sc.lines[:isolve + 1])
+                    return
+                chk.count('rect_exact_accepted')
+            else:
+                tot += 1
+                rej += not out[isolve].startswith('ok')
+        if tot >= 6 and rej > tot // 2:
+            chk.violation('rate-rect', '%s %dx%d: noise of exactly the declared size is rejected in %d of %d solves at significance 0.001' % (typ, r, c, rej, tot), sc.lines[:isolve + 1])
+            return
+        chk.count('rect_noisy_solves', tot)
+        chk.count('rect_noisy_rejected', rej)
 
 
 def swap_ports_line(l):
